@@ -33,9 +33,10 @@ Proof.
   intros d dirs p ops. induction ops as [|o ops IH]; intros idx s.
   - constructor.
   - cbn [run_ops].
-    assert (Hhere : Forall (in_phase p idx)
-                      (match o with OProbe => [(PtInstr p idx, obs_non_act d s)] | _ => [] end)).
-    { destruct o; try (constructor; fail). constructor; [|constructor]. exists idx. split; [reflexivity|lia]. }
+    assert (Hhere : Forall (in_phase p idx) (processes_of d p idx o s)).
+    { destruct o; try (constructor; fail); cbn [processes_of].
+      - apply Forall_map. apply Forall_forall. intros ob _. exists idx. split; [reflexivity|lia].
+      - constructor; [|constructor]. exists idx. split; [reflexivity|lia]. }
     destruct (step d dirs (match p with PSetup => true | _ => false end) o s) as [s1 | s1 | ].
     + pose proof (IH (S idx) s1) as Hrec.
       destruct (run_ops d dirs p (S idx) ops s1) as [[t s''] r]. unfold tr in *. cbn [fst] in *.
@@ -85,14 +86,23 @@ Lemma step_timeout : forall d dirs b o s s1,
   step d dirs b o s = SOk s1 ->
   st_timeout s1 = match op_timeout o with Some t => t | None => st_timeout s end.
 Proof.
-  intros d dirs b o s s1 H. destruct o as [t md | cb suffix | t | cb suffix | ]; cbn [step op_timeout] in *.
+  intros d dirs b o s s1 H. destruct o as [t md | t n v | cb suffix | t | cb suffix | ]; cbn [step op_timeout] in *.
   - destruct (apply_all d md (appliers b t) s) as [s'|] eqn:E; [|discriminate]. injection H as <-.
+    apply apply_all_keeps in E. apply E.
+  - destruct (apply_all d (MSet n v) (appliers b t) s) as [s'|] eqn:E; [|discriminate]. injection H as <-.
     apply apply_all_keeps in E. apply E.
   - destruct (walk (base_dir (st_cwd s) cb) suffix) as [dd|]; [|discriminate].
     destruct (existsb (path_eqb dd) dirs); [|discriminate]. injection H as <-. reflexivity.
   - injection H as <-. reflexivity.
   - injection H as <-. reflexivity.
   - injection H as <-. reflexivity.
+Qed.
+
+Lemma obs_value_timeout : forall d aps k s ob, In ob (obs_value d k aps s) -> o_timeout ob = st_timeout s.
+Proof.
+  intros d aps. induction aps as [|a aps IH]; intros k s ob H; cbn [obs_value] in H.
+  - contradiction.
+  - destruct H as [<-|H]; [reflexivity|]. apply (IH _ _ _ H).
 Qed.
 
 Lemma run_ops_timeout : forall d dirs p ops idx s k o,
@@ -102,10 +112,12 @@ Proof.
   intros d dirs p ops. induction ops as [|o0 ops IH]; intros idx s k o Hin.
   - contradiction.
   - cbn [run_ops] in Hin.
-    assert (Hhere : In (PtInstr p (idx + k), o) (match o0 with OProbe => [(PtInstr p idx, obs_non_act d s)] | _ => [] end) ->
+    assert (Hhere : In (PtInstr p (idx + k), o) (processes_of d p idx o0 s) ->
                     o_timeout o = timeout_in_force (map op_timeout (o0 :: ops)) (st_timeout s) k).
-    { intros H. destruct o0; try contradiction. destruct H as [H|[]]. injection H as H1 <-.
-      assert (k = 0)%nat by lia. subst k. reflexivity. }
+    { intros H. destruct o0; try contradiction; cbn [processes_of] in H.
+      - apply in_map_iff in H as (ob & H & Hob). injection H as H1 <-.
+        assert (k = 0)%nat by lia. subst k. cbn [timeout_in_force]. apply (obs_value_timeout d _ _ _ _ Hob).
+      - destruct H as [H|[]]. injection H as H1 <-. assert (k = 0)%nat by lia. subst k. reflexivity. }
     pose proof (step_timeout d dirs (match p with PSetup => true | _ => false end) o0 s) as Hst.
     destruct (step d dirs (match p with PSetup => true | _ => false end) o0 s) as [s1 | s1 | ];
       [|apply Hhere; exact Hin|apply Hhere; exact Hin].
